@@ -25,6 +25,8 @@ pub const CHECKS: &[CheckDef] = &[
     CheckDef { id: "C07", quick_runs: 10000, thorough_runs: 150_000, level: "exploration", title: "Mutex/RwLock exclusion, blocking, hand-over" },
     CheckDef { id: "C08", quick_runs: 15000, thorough_runs: 150_000, level: "exploration", title: "waiting primitives wake exactly on notification" },
     CheckDef { id: "C09", quick_runs: 15000, thorough_runs: 150_000, level: "exploration", title: "mpsc: once, in order, with ordering" },
+    CheckDef { id: "C10", quick_runs: 6000, thorough_runs: 300_000, level: "exploration", title: "leaks reported exactly" },
+    CheckDef { id: "C11", quick_runs: 2500, thorough_runs: 300_000, level: "exploration", title: "loom::sync::Arc behaves like std::sync::Arc" },
     CheckDef { id: "C14", quick_runs: 5000, thorough_runs: 80_000, level: "exploration", title: "exploration terminates and never repeats" },
 ];
 
@@ -76,6 +78,8 @@ pub fn generate(check: &str, tier: &str, seed: u64, run: u64) -> Case {
             let pr = sync_profile(&mut rng, "chan");
             gen_sync(&mut rng, &pr)
         }
+        "C10" => gen_arc(&mut rng, true),
+        "C11" => gen_arc(&mut rng, false),
         "C14" => match rng.below(3) {
             0 => gen_litmus_any(&mut rng, false),
             1 => {
@@ -157,6 +161,18 @@ pub fn judge(check: &str, tier: &str, case: &Case, seed: u64, run: u64) -> CaseR
             opts.o2 = true;
             opts.o3_must_classes = vec![FailClass::Race, FailClass::Deadlock, leak.clone()];
             opts.o3_may_classes = vec![FailClass::Race, FailClass::Deadlock, leak];
+        }
+        "C10" => {
+            opts.o3_must_classes = vec![leak.clone()];
+            opts.o3_may_classes = vec![leak];
+            opts.o2 = true;
+            opts.ignore_classes = vec![FailClass::Race, FailClass::Deadlock];
+        }
+        "C11" => {
+            opts.o1 = Some(MachineCfg::must());
+            opts.o2 = true;
+            opts.o3_must_classes = vec![FailClass::Race];
+            opts.o3_may_classes = vec![FailClass::Race, leak];
         }
         "C14" => {
             opts.o4 = true;
